@@ -1325,6 +1325,7 @@ theorem step_cohD (cfg : Cfg) (n : Node) (D : List Nat) (op : Op) (hc : CohD n D
       split
       · exact cohD_congr triv triv triv triv triv triv hc
       · exact hc
+    | nop => exact hc
     | coldreset =>
       simp only [step, isSessOp, dirtyStep, ok]
       exact cohD_of_agree [] ⟨fun i _ => by simp [getFabric, kvF], by simp [kvNets]⟩
